@@ -122,7 +122,9 @@ def c06(run):
     bcases = gen_frame_cases(run, "bytes")
     t = run.record("frame", "bytecases", cases=bcases)
     run.validate("frame", t, "Trace_frame", label="(R) byte shapes -> field values", chunk=8000)
-    run.require_kinds("maccmd/enc", "maccmd/dec", "frame/rt", "frame/bytes")
+    t = run.record("frame", "japayload", n=T(run, 3000, 100000))
+    run.validate("frame", t, "Trace_frame", label="(V) decrypted join-accept payloads with reserved bits / bytes set -> field values", chunk=8000)
+    run.require_kinds("maccmd/enc", "maccmd/dec", "frame/rt", "frame/bytes", "frame/japl")
     run.rc = run.finish(assumptions=FRAME_ASSUME + ["DutyCycleReq is modelled as a whole byte (4-bit field + legacy 255): values 16..255 are DON'T-CARE"])
 
 
@@ -406,7 +408,11 @@ def ext(run):
     run.validate("band", t, "Trace_band", prefix="X.", label="(V) max EIRP, TxParamSetup support, downlink TX power per band")
     t = run.record("misc", "sens", n=T(run, 2000, 200000))
     run.validate("misc", t, "Trace_misc", prefix="X.", label="(V) receiver sensitivity / link budget relations", chunk=20000)
-    run.require_kinds("client/client", "band/bandmisc", "misc/sens")
+    t = run.record("frame", "japayload", n=T(run, 3000, 100000))
+    run.validate("frame", t, "Trace_frame", prefix="X.", label="(V) a decoded join-accept payload is one the encoder accepts and decodes to itself", chunk=8000)
+    t = run.record("misc", "zerovalue")
+    run.validate("misc", t, "Trace_misc", prefix="X.", label="(V) methods on zero values / nil members return")
+    run.require_kinds("client/client", "band/bandmisc", "misc/sens", "frame/japl", "misc/zerovalue")
     run.rc = run.finish(assumptions=["extended coverage, outside the listed properties", "the asynchronous (Redis) client mode is covered by the design model only: no Redis server can run here",
                                      "max EIRP values and TxParamSetup support from RP002-1.0.x as transcribed in spec/trace/Trace_band.tla"])
 
